@@ -430,6 +430,9 @@ func (c *Client) Mail(from string, opts *MailOptions) error {
 		return err
 	}
 
+	// A new transaction starts: forget the recipients of the previous one.
+	c.rcpts = nil
+
 	var sb strings.Builder
 	// A high enough power of 2 than 510+14+26+11+9+9+39+500
 	sb.Grow(2048)
